@@ -91,7 +91,9 @@ def run(rep: Report):
     t0 = time.time()
     n = 6000 if rep.tier == "quick" else 60000
     seeds = pool.PY_STMTS + pool.XSH_STMTS + ["f'{a}'\n", "f'''a\n{b:>{w}}\n'''\n", "x = '''a\nb'''\n", "x = (1,\n 2)\n", "x = 1 + \\\n 2\n",
-                                              "with! a:\n", "f!(a, [b, c], 'd,e')\n", "if a:\n\tb\n        c\n"]
+                                              "with! a:\n", "f!(a, [b, c], 'd,e')\n", "if a:\n\tb\n        c\n",
+                                              # literal concatenations mixing kinds, every order (an error of the literal must stay a SyntaxError; round-5 seed C03e)
+                                              "f'a' b'c'\n", "x = f'a{y}b' b'c'\n", "print('s' f'a' b'c')\n", "b'c' f'a'\n", "f'{x}' b'c' 'd'\n", "'s' b'c'\n", "f\'\'\'a\'\'\' b'c'\n"]
     rc, out, err = run_py("harness/fuzz_totality.py", [rep.seed, n], timeout=3600, stdin=json.dumps(seeds))
     si = StandIn("totality-fuzz", f"{n} inputs: all prefixes + seeded single-edit mutations + character soup of {len(seeds)} sources, exec and eval mode, hang = 5 s")
     if rc != 0:
